@@ -376,6 +376,8 @@ int main(int argc, char **argv)
             j["r"]       = "dev";
             j["dev"]     = dev;
             j["crashed"] = !early;
+            if (!early)
+              g_shm->dev_crashes = g_shm->dev_crashes + 1;
             j["what"]    = "object(s) " + died.dump() + " destroyed during " + sj.value("op", "") +
                         " although an owner remains (instance counter), as in the deviation" +
                         (early ? std::string("") : "; then the process died: " + sum);
@@ -413,6 +415,7 @@ int main(int argc, char **argv)
         {"instances", static_cast<long>(g_shm->instances)},
         {"truncated_alt", static_cast<long>(g_shm->truncated_alt)},
         {"truncated_dev", static_cast<long>(g_shm->truncated_dev)},
+        {"skipped_known_crash", static_cast<long>(g_shm->skipped_known_crash)},
         {"forks", forks},
         {"crashes", crashes}});
   return 0;
